@@ -762,6 +762,8 @@ class SegmentationImage:
                [1, 1, 0, 0, 4, 4]])
         """
         self.check_labels(labels)
+        if new_label < 0:
+            raise ValueError('new_label must be >= 0.')
 
         labels = np.atleast_1d(labels)
         if labels.size == 0:
